@@ -502,14 +502,24 @@ func cmdCheck(id, tier string, only []string) int {
 	fps := map[uint64]struct{}{}
 	var firstViol *workerOut
 	var violBuild string
+	var trouble string
 	raceRunsDone := int64(0)
 	for bi, b := range batches {
 		for k, o := range b.outs {
+			// Worker trouble (killed, out of memory, watchdog) is reported as
+			// infrastructure trouble - unless another worker has a violation that
+			// replays in a fresh process: that verdict stands on its own.
 			if o == nil {
-				infra("worker %d (%s) produced no result:\n%s", k, names[bi], tail(b.stderrs[k], 6000))
+				if trouble == "" {
+					trouble = fmt.Sprintf("worker %d (%s) produced no result:\n%s", k, names[bi], tail(b.stderrs[k], 6000))
+				}
+				continue
 			}
 			if o.Infra != "" {
-				infra("worker %d (%s): %s\n%s", k, names[bi], o.Infra, tail(b.stderrs[k], 3000))
+				if trouble == "" {
+					trouble = fmt.Sprintf("worker %d (%s): %s\n%s", k, names[bi], o.Infra, tail(b.stderrs[k], 3000))
+				}
+				continue
 			}
 			if agg.Rule == "" {
 				agg.Rule, agg.Real, agg.Stub, agg.NotRun, agg.Assumptions = o.Rule, o.Real, o.Stub, o.NotRun, o.Assumptions
@@ -565,6 +575,9 @@ func cmdCheck(id, tier string, only []string) int {
 	code := 0
 	violations := 0
 	var violLine string
+	if firstViol == nil && trouble != "" {
+		infra("%s", trouble)
+	}
 	if firstViol != nil {
 		violations = 1
 		vb := bin
@@ -572,6 +585,11 @@ func cmdCheck(id, tier string, only []string) int {
 			vb = raceBin
 		}
 		ro, rout := replayFresh(id, vb, violBuild, firstViol.ReplayPath, digest)
+		for try := 0; try < 3 && violBuild == "race" && ro != nil && ro.Violation == nil && ro.Infra == ""; try++ {
+			// the schedule replays exactly; whether the detector still remembers the
+			// conflicting access does not (random shadow-cell eviction)
+			ro, rout = replayFresh(id, vb, violBuild, firstViol.ReplayPath, digest)
+		}
 		if ro == nil || ro.Violation == nil || !ro.ReplayOK {
 			notes := ""
 			if ro != nil {
@@ -591,6 +609,9 @@ func cmdCheck(id, tier string, only []string) int {
 		if k.Status == "known" && k.Property == id {
 			fmt.Printf("KNOWN-FINDING: property=%s %s (seen %d times in this run)\n", id, k.What, agg.KnownSeen[k.What])
 		}
+	}
+	if trouble != "" {
+		fmt.Printf("note: besides the violation, %s\n", tail(trouble, 1500))
 	}
 	fmt.Printf("%s %s: runs=%d evaluations=%d distinct_nontrivial=%d steps=%d wall=%.1fs (build %.1fs) scenarios=%v\n",
 		id, tier, agg.Runs, agg.Evals, len(fps), agg.Steps, wall, buildS, agg.Scenarios)
